@@ -30,18 +30,19 @@ Proof. split; [reflexivity|]. eexists; eexists. repeat split; vm_compute; reflex
 Print Assumptions C01_library_layer.
 
 (* Derive layer.  For every environment of derived definitions inside the decidable `plain`
-   fragment (plain_envb: non-generic structs and enums of every shape — named, tuple, newtype, unit —
-   with rename / rename_all / rename_all_fields / skip / struct-level tag, all four enum
-   representations, fields of any library type expression over references to other definitions,
-   recursion included, `inline` on fields of any such type; no flatten / optional / type / as overrides or generic definitions, which the corpus
-   correspondence covers instead), for EVERY type expression, EVERY value and every serde recursion
-   depth: what serde_json emits is, from some evaluation depth on, a member of the TypeScript type
+   fragment (plain_envb: structs and enums of every shape — named, tuple, newtype, unit — GENERIC over
+   any number of type parameters or not, with rename / rename_all / rename_all_fields / skip /
+   struct-level tag, all four enum representations, fields of any library type expression over type
+   parameters and references to (instantiations of) other definitions, recursion included, `inline`
+   on fields of definitions without parameters; no flatten / optional / type / as overrides, which
+   the corpus correspondence covers instead), for EVERY closed type expression — every instantiation
+   of the generic definitions at closed types —, EVERY value and every serde recursion depth: what serde_json emits is, from some evaluation depth on, a member of the TypeScript type
    TS::name() reports, read against the declarations ts-rs generates for that environment. *)
 Theorem C01_derive_layer :
   forall is_upper is_alnum is_numeric R gf,
     plain_envb is_upper is_alnum is_numeric R gf = true ->
     forall n t v j a,
-      mono_ty t = true -> ser is_upper R n t v = Some j -> name_of R t = Ok a ->
+      mono_ty R t = true -> ser is_upper R n t v = Some j -> name_of R t = Ok a ->
       exists f0, forall f, (f0 <= f)%nat -> memberb (env_of is_upper is_alnum is_numeric R gf) f a j = true.
 Proof. exact derive_layer_member. Qed.
 
@@ -50,7 +51,7 @@ Theorem C01_derive_layer_inline :
   forall is_upper is_alnum is_numeric R gf,
     plain_envb is_upper is_alnum is_numeric R gf = true ->
     forall n g t v j a,
-      mono_ty t = true -> ser is_upper R n t v = Some j -> lib_inline R (gen is_upper is_alnum is_numeric R g) t = Ok a ->
+      mono_ty R t = true -> ser is_upper R n t v = Some j -> lib_inline R (gen is_upper is_alnum is_numeric R g) t = Ok a ->
       exists f0, forall f, (f0 <= f)%nat -> memberb (env_of is_upper is_alnum is_numeric R gf) f a j = true.
 Proof. exact derive_layer_member_inline. Qed.
 
@@ -90,7 +91,7 @@ End C01_example.
    other, a nested value; the model's JSON text is what serde_json prints for it *)
 Example C01_derive_nonvacuous :
   let t := RNamed (lit "Node"%string) [] in
-  plain_envb C01_example.up C01_example.al is_ascii_digit C01_example.R 10 = true /\ mono_ty t = true /\
+  plain_envb C01_example.up C01_example.al is_ascii_digit C01_example.R 10 = true /\ mono_ty C01_example.R t = true /\
   exists j a, ser C01_example.up C01_example.R 10 t C01_example.v = Some j /\ name_of C01_example.R t = Ok a /\
     print a = lit "Node"%string /\
     json_text j = lit "{""nodeId"":1,""kids"":[{""nodeId"":2,""kids"":[],""shape"":null},{""nodeId"":3,""kids"":[],""shape"":{""kind"":""Dot""}}],""shape"":{""kind"":""Box"",""w"":7,""inner"":{""nodeId"":4,""kids"":[],""shape"":null}}}"%string.
@@ -105,6 +106,36 @@ Example C01_derive_inline_nonvacuous :
       = Ok (lit "type Host = { s: Array<{ ""kind"": ""Dot"" } | { ""kind"": ""Box"", w: number, inner: Node, }>, };"%string) /\
     json_text j = lit "{""s"":[{""kind"":""Dot""},{""kind"":""Box"",""w"":7,""inner"":{""nodeId"":4,""kids"":[],""shape"":null}}]}"%string.
 Proof. eexists; eexists. repeat split; vm_compute; reflexivity. Qed.
+
+(* generic definitions: struct Pair<A, B = A> { first: A, second: Vec<B> }, #[serde(tag = "t", content = "c")] enum Opt<T> { Nothing, Just(T), Both { l: T, r: Pair<T, bool> } };
+   the instantiation Pair<i32, Opt<String>> and a value of it *)
+Module C01_generic.
+Import C01_example.
+Definition catp (n : String.string) (ps : list (str * option rty)) : cattrs :=
+  {| c_ident := lit n; c_rename := None; c_rename_all := None; c_tag := None; c_optional_fields := NotOptional;
+     c_docs := []; c_export_to := None; c_type := None; c_as := None; c_params := ps |}.
+Definition R : env :=
+  [(lit "Pair", DStruct (catp "Pair" [(lit "A", None); (lit "B", Some (RParam 0))])
+      (SNamed [fld "first" (RParam 0); fld "second" (RVec (RParam 1))]));
+   (lit "Opt", DEnum (catp "Opt" [(lit "T", None)]) (Adjacent (lit "t") (lit "c")) None
+      [var "Nothing" SUnit; var "Just" (STuple [fld "_0" (RParam 0)]);
+       var "Both" (SNamed [fld "l" (RParam 0); fld "r" (RNamed (lit "Pair") [RParam 0; RLeaf LBool])])])].
+Definition t : rty := RNamed (lit "Pair") [i32; RNamed (lit "Opt") [RLeaf LString]].
+Definition v : value :=
+  VStruct [VInt 5; VSeq [VVariant 0 []; VVariant 1 [VStr (lit "x")];
+                         VVariant 2 [VStr (lit "y"); VStruct [VStr (lit "z"); VSeq [VBool true]]]]].
+End C01_generic.
+
+Example C01_derive_generic_nonvacuous :
+  plain_envb C01_example.up C01_example.al is_ascii_digit C01_generic.R 10 = true /\ mono_ty C01_generic.R C01_generic.t = true /\
+  exists j a d1 d2, ser C01_example.up C01_generic.R 10 C01_generic.t C01_generic.v = Some j /\ name_of C01_generic.R C01_generic.t = Ok a /\
+    print a = lit "Pair<number, Opt<string>>"%string /\
+    Rust.lookup C01_generic.R (lit "Pair"%string) = Some d1 /\ Rust.lookup C01_generic.R (lit "Opt"%string) = Some d2 /\
+    decl_text C01_example.up C01_example.al is_ascii_digit C01_generic.R 10 d1 = Ok (lit "type Pair<A, B = A> = { first: A, second: Array<B>, };"%string) /\
+    decl_text C01_example.up C01_example.al is_ascii_digit C01_generic.R 10 d2
+      = Ok (lit "type Opt<T> = { ""t"": ""Nothing"" } | { ""t"": ""Just"", ""c"": T } | { ""t"": ""Both"", ""c"": { l: T, r: Pair<T, boolean>, } };"%string) /\
+    json_text j = lit "{""first"":5,""second"":[{""t"":""Nothing""},{""t"":""Just"",""c"":""x""},{""t"":""Both"",""c"":{""l"":""y"",""r"":{""first"":""z"",""second"":[true]}}}]}"%string.
+Proof. split; [vm_compute; reflexivity|]. split; [vm_compute; reflexivity|]. eexists; eexists; eexists; eexists. repeat split; vm_compute; reflexivity. Qed.
 
 Print Assumptions C01_derive_layer.
 Print Assumptions C01_derive_layer_inline.
